@@ -9,6 +9,7 @@ from outsourcer import CodeBuilder, Code, Val
 from . import expressions as ex
 from . import parser
 from .expressions import TEXT, POS, Ref, visit
+from .expressions.base import Expression
 
 
 def generate_source_code(docstring, parsed):
@@ -327,7 +328,27 @@ def _update_local_references(rules):
         if isinstance(node, ex.Class):
             field_names.pop()
 
-    visit(rules, previsit, postvisit)
+    def walk(node):
+        if isinstance(node, ex.Let):
+            # The name is bound in the body only. In the expression that
+            # produces its value, the same name refers to an outer binding, or
+            # to a rule.
+            walk(node.expr)
+            previsit(node)
+            walk(node.body)
+            postvisit(node)
+
+        elif isinstance(node, Expression):
+            previsit(node)
+            for child in node.__dict__.values():
+                walk(child)
+            postvisit(node)
+
+        elif isinstance(node, (list, tuple)):
+            for child in node:
+                walk(child)
+
+    walk(rules)
 
 
 def _python_names(node):
